@@ -217,3 +217,82 @@ func VHC09Sharing() {
 	vh.Assert(k == OK, "C09: "+c.id+": the program runs")
 	vh.Assert(out == c.out, "C09 sharing: "+c.id)
 }
+
+var c09Sources = []string{"$.n", "$.arr[0]", "v", "o.k", "$.missing", "a.gone", "$.obj.k.z", "$.e[3]"}
+var c09SrcShow = []string{"5", "1", "7", "8", "null", "null", "1", "null"}
+
+// sinks: '@' = the source expression, '#' = the mutation applied to the copy held by the sink
+var c09Sinks = []string{
+	"t = @\n#t#",
+	"t = [@]\n#t[0]#",
+	"t = {k: @}\n#t.k#",
+	"t = [0, [@]]\n#t[1][0]#",
+	"t = []; t.push(@)\n#t[0]#",
+	"g(@)",
+	"x = match (@) { z => { #z# } }",
+	"t = [@, @]\nfor (q in t) { #q# }",
+}
+
+var c09Mutations = []string{" = 100", " += 1", "++"}
+
+// VHC09CopyMatrix: a scalar read from any source (document member / index, variable,
+// member of a variable, missing members) and put into any sink (variable, array or
+// object literal, nested literal, push argument, parameter, match binding, loop
+// variable) is a copy: mutating it through the sink changes neither the source nor the
+// input document, and does not create a missing source.
+func VHC09CopyMatrix() {
+	si := vh.Choose("src", len(c09Sources))
+	src := c09Sources[si]
+	sink := c09Sinks[vh.Choose("sink", len(c09Sinks))]
+	mut := c09Mutations[vh.Choose("mut", len(c09Mutations))]
+	body := ""
+	// the sink text with the mutation spliced in: "#x#" -> "x<mut>"
+	rest := sink
+	for {
+		i := indexByte(rest, '#')
+		if i < 0 {
+			body += rest
+			break
+		}
+		j := i + 1 + indexByte(rest[i+1:], '#')
+		body += rest[:i] + rest[i+1:j] + mut
+		rest = rest[j+1:]
+	}
+	body = replaceAll(body, "@", src)
+	gmut := replaceAll("p"+mut, "  ", " ")
+	prog := "function g(p) { " + gmut + " }\n{ v = 7; o = {k: 8}; a = {}\nprint " + src + "\n" + body + "\nprint " + src + ", v, o, a }"
+	v1 := 1.0
+	back, out, k := c09Run(prog, c09Doc(v1))
+	vh.Reach("copy evaluated")
+	vh.Assert(k == OK, "C09 copy matrix: the program runs: "+lbl(prog))
+	show := c09SrcShow[si]
+	vh.Assert(out == show+"\n"+show+" 7 {\"k\": 8} {}\n", "C09 copy matrix: the source is unchanged after its copy was mutated: "+lbl(body))
+	vh.Assert(jsonEqual(back, c09Doc(v1)), "C09 copy matrix: the input document is unchanged after a copy of one of its scalars was mutated: "+lbl(body))
+}
+
+func indexByte(s string, c byte) int {
+	for i := 0; i < len(s); i++ {
+		if s[i] == c {
+			return i
+		}
+	}
+	return -1
+}
+
+func replaceAll(s, old, new string) string {
+	out := ""
+	for {
+		i := -1
+		for j := 0; j+len(old) <= len(s); j++ {
+			if s[j:j+len(old)] == old {
+				i = j
+				break
+			}
+		}
+		if i < 0 {
+			return out + s
+		}
+		out += s[:i] + new
+		s = s[i+len(old):]
+	}
+}
